@@ -64,6 +64,17 @@ def contracts():
           ensures={"kept": "self.g_registered is mdata", "n": "self.g_register_calls == old(self.g_register_calls) + 1"}, returns="none",
           why="FileRegistrar.register_complete(mdata) is under its own contract above (one manifest entry per change)")
     cs[-1].variant = "as_a_callee"
+    fname = "(path if path.rfind('/') == -1 else path[path.rfind('/') + 1:])"
+    cs.append(Contract(
+        target=f"{FM}::FileManager._copy_in", variant="local_file", types={"path": "str", "home": "str"},
+        requires=["not path.startswith('s3:')"],
+        ensures={"one_private_copy_of_the_source_into_the_names_home": "effects_count('shutil.copy') == 1 and effect_payload('shutil.copy', 0) == path and "
+                                                                       f"effect_path('shutil.copy', 0) == path_join(home, {fname})",
+                 "returns_where_it_put_it": f"result == path_join(home, {fname})"},
+        class_fields=CF, macros=MACROS, returns="str", native={"skip": True},
+        property_clauses={"one_private_copy_of_the_source_into_the_names_home": "C11", "returns_where_it_put_it": "C11"},
+        doc={"one_private_copy_of_the_source_into_the_names_home": "C11: 'every registered version stays byte-identical' -- the registered bytes are a COPY (shutil.copy) of the source, "
+                                                                   "not a link to it, placed in the name's home under the source's file name"}))
     reg = "self.registrar.g_registered"
     cs.append(Contract(
         target=f"{FM}::FileManager.add_named_file", variant="plain_path",
@@ -86,11 +97,12 @@ def contracts():
 def bounded(tier, seed):
     return [{"name": "C11.bounded", "script": "native/bounded_C11.py", "timeout": 3000,
              "scope": "every operation sequence of length <=2 and 1500 (thorough 20000) seeded random sequences of each length 3..4 (thorough ..5) over "
-                      "{add(name in 2, source in 2, content in 3), mutate source, remove(name), new instance}, against the abstract view name -> versions"}]
+                      "{add(name in 2, source in 2 (one.csv, and two without an extension), content in 3), mutate source, remove(name), new instance}, against the abstract view name -> versions"}]
 
 
 LEVEL = "other"
 EXPLANATION = ("Proved: FileManager.add_named_file copies the given file in once and registers it once under the given name with the fingerprint of the copied bytes; FileRegistrar.register_complete distributes (appends) exactly one manifest entry per change of the CURRENT version and none for a repeat "
                "(comparison with the last entry only; witness clauses make 'back to an older version' a change). Bounded: operation sequences on the real "
                "FileManager against the abstract view the property gives (content addressing, immutability, fresh-instance agreement).")
-ASSUMPTIONS = ["shutil.copy / os.rename / hashlib are external; the bodies of _fingerprint and _copy_in are covered only by the bounded sequences"]
+ASSUMPTIONS = ["shutil.copy / os.rename / hashlib are external; _copy_in[local_file] is proved to make exactly one shutil.copy of the source into the name's home "
+               "(effect log); the body of _fingerprint (hashlib, os.rename) is covered only by the bounded sequences"]
